@@ -20,9 +20,18 @@ def find(path):
     return None
 
 
+# header lines of IsoQuant's text outputs: comments ("# ...", "##gff") and column names; read names and feature ids
+# may themselves start with '#'
+_HEADER_PREFIXES = ("# ", "##", "#read_id\t", "#feature_id\t", "#chr\t", "#chrom\t", "#isoform\t")
+
+
+def is_header(line):
+    return line.startswith(_HEADER_PREFIXES) or line.rstrip("\n") == "#"
+
+
 def data_lines(path):
     with _open(path) as f:
-        return [l.rstrip("\n") for l in f if not l.startswith("#") and l.strip()]
+        return [l.rstrip("\n") for l in f if not is_header(l) and l.strip()]
 
 
 def parse_ranges(s):
@@ -128,7 +137,7 @@ def counts_simple(path):
     d = OrderedDict()
     with _open(path) as f:
         for l in f:
-            if l.startswith("#") or not l.strip():
+            if is_header(l) or not l.strip():
                 continue
             p = l.rstrip("\n").split("\t")
             d[p[0]] = float(p[1])
@@ -144,7 +153,7 @@ def counts_matrix(path):
             if not l.strip():
                 continue
             p = l.rstrip("\n").split("\t")
-            if l.startswith("#"):
+            if is_header(l):
                 if p[0].lstrip("#").strip() in ("feature_id",):
                     groups = p[1:]
                 continue
@@ -157,7 +166,7 @@ def counts_linear(path):
     out = []
     with _open(path) as f:
         for l in f:
-            if l.startswith("#") or not l.strip():
+            if is_header(l) or not l.strip():
                 continue
             p = l.rstrip("\n").split("\t")
             out.append((p[0], p[1], float(p[2])))
